@@ -19,7 +19,7 @@ func configsFor(prop string, tier int) []string {
 	switch prop {
 	case "C08":
 		return []string{"default", "noasm", "force32bit", "appengine", "force32bit,appengine", "386"}
-	case "C18", "C19":
+	case "C18", "C19", "C16", "C09", "C10":
 		return []string{"default", "force32bit"}
 	case "C20":
 		if tier == 1 {
